@@ -47,5 +47,6 @@ func emitTopics(p *pkg, out string) {
 		}
 		lf.pf("]\n\n")
 	}
+	p.emitHeaderCopies(lf)
 	lf.write(out)
 }
